@@ -432,6 +432,24 @@ func checkC19(c *h.Check) {
 			cases = append(cases, cc)
 		}
 	}
+	// injectors written as methods: whatever gen makes of them, check makes the same
+	for mi, m := range []struct{ name, build string }{{"complete", "NewServer, NewConfig"}, {"missing-provider", "NewServer"}, {"unused-provider", "NewServer, NewConfig, NewOther"}} {
+		for recv := 0; recv < 2; recv++ {
+			rcv := "(App)"
+			if recv == 1 {
+				rcv = "(a *App)"
+			}
+			files := map[string]string{
+				"defs.go": "package p\n\ntype App struct{}\n\ntype Config struct{}\n\ntype Other struct{}\n\ntype Server struct{ C Config }\n\nfunc NewServer(c Config) *Server { return &Server{c} }\n\nfunc NewConfig() Config { return Config{} }\n\nfunc NewOther() Other { return Other{} }\n",
+				"wire.go": "//go:build wireinject\n// +build wireinject\n\npackage p\n\nimport \"github.com/google/wire\"\n\nfunc " + rcv + " Server() *Server {\n\twire.Build(" + m.build + ")\n\treturn nil\n}\n",
+			}
+			cc := &h.Case{ID: fmt.Sprintf("C19/check/method-injector/%s/recv=%d", m.name, recv), Files: files, Judge: judgeCheckAgainstGen(false)}
+			_ = mi
+			if c.NoteProgram(cc.Files) {
+				cases = append(cases, cc)
+			}
+		}
+	}
 	results := c.JudgeAll(cases)
 	genRej, chkRej := 0, 0
 	classes := map[string]bool{}
@@ -556,6 +574,21 @@ func unusedIllFormedSets() []func() *ir.Program {
 			return &ir.Program{Root: p, Injectors: []*ir.Injector{inj}, ExtraSets: []*ir.Set{{Pkg: p, Name: "Unused", Items: f(b, p)}}}
 		}
 	}
+	list := c19IllFormedItemLists(mk)
+	// the same sets under an unexported variable name: a top-level provider set all the same
+	var out []func() *ir.Program
+	for _, f := range list {
+		f := f
+		out = append(out, f, func() *ir.Program {
+			prog := f()
+			prog.ExtraSets[0].Name = "unusedSet"
+			return prog
+		})
+	}
+	return out
+}
+
+func c19IllFormedItemLists(mk func(f func(b *ir.Builder, p *ir.Pkg) []*ir.Item) func() *ir.Program) []func() *ir.Program {
 	return []func() *ir.Program{
 		mk(func(b *ir.Builder, p *ir.Pkg) []*ir.Item { // conflict
 			t := b.Leaf(p, "T")
